@@ -508,6 +508,15 @@ func c08CLI(c *gen.Ctx) error {
 		j.Files = [][]string{{}, {}}
 		jobs = append(jobs, j)
 	}
+	// a pattern file that does not exist ("@k" beyond the files given), alone, before, between and
+	// after other arguments: the command must refuse to run
+	for i, flag := range flags {
+		jobs = append(jobs,
+			c08CliIn{Flag: flag, Args: []string{"@5"}, Files: [][]string{}},
+			c08CliIn{Flag: flag, Args: []string{fmt.Sprintf("zz9%d/p0", i), "@5"}, Files: [][]string{}},
+			c08CliIn{Flag: flag, Args: []string{"@0", "@5", fmt.Sprintf("zz9%d/p1", i)}, Files: [][]string{{fmt.Sprintf("zz9%d/f0", i)}}})
+		c.E.Count("cli:missing-file")
+	}
 	c.DoParallel("cli", jobs, 8)
 	return nil
 }
